@@ -393,7 +393,8 @@ def materialise(desc) -> Structure:
                             out_name = cand[(counter // altmod) % len(cand)]
                             used.add(out_name)
                 s.add(name=out_name, canon=k, resn=r["name"], chain=ch["id"], seq=nums[i], icode=icodes[i],
-                      xyz=r["atoms"][k], group=("chain", ci, i))  # fmt: skip
+                      xyz=r["atoms"][k], group=("chain", ci, i),
+                      rec="HETATM" if ch.get("hetres") is not None and ch["hetres"] % n == i else "ATOM")  # fmt: skip
         if ch.get("ter", True) and s.records:
             s.ters.add(len(s.records) - 1)
         s.chains.append(meta)
